@@ -45,6 +45,15 @@ TemplateOk(x, bytes) ==
            /\ w.ok /\ Len(w.items) = Len(x.ch) + 1                              \* the walk tiles it exactly
            /\ \A i \in 1..Len(x.ch) : Slice(payload, w.items[i].off, w.items[i].len) = DescEnc(x.ch[i])  \* children in order
 
+\* the filler blob an object ends with (large objects are a container around one BufferFill), if any
+RECURSIVE LastFill(_)
+LastFill(x) == IF x.t = "BufferFill" THEN <<x>>
+               ELSE IF "ch" \in DOMAIN x /\ Len(x.ch) > 0 THEN LastFill(x.ch[Len(x.ch)])
+               ELSE IF "v" \in DOMAIN x THEN LastFill(x.v) ELSE <<>>
+\* the object ends with exactly the blob's bytes: at least n of them (more only if the bytes before happen to be equal)
+TailOk == LET f == LastFill(E.tree) IN
+  (Has(E, "tail") /\ f # <<>> /\ f[1].n >= 16) => (E.tail = Fill(16, f[1].b) /\ E.tail_run >= f[1].n /\ E.tail_run <= f[1].n + 12)
+
 TAml ==
   /\ E.ev = "aml"
   /\ Judge("C18", ~E.panic => TreeFits(E.tree), AInfo("oversize_not_refused"))
@@ -79,6 +88,10 @@ TAml ==
      ELSE \* summary event of a very large object: only the framing can be judged (C07)
           /\ Judge("C07", E.tree.t \in DOMAIN FramedOpLen => CallSitePkgOk(E.head, E.len, FramedOpLen[E.tree.t]), AInfo("call_site_pkglength_large"))
           /\ Judge("C18", E.tree.t \in DOMAIN FramedOpLen => CallSitePkgOk(E.head, E.len, FramedOpLen[E.tree.t]), AInfo("length_field_disagrees_with_content"))
+          \* the end of a large object (the beginning is judged through its head): the filler blob, whole, and nothing after it
+          /\ Judge("C18", TailOk, AInfo("large_object_tail"))
+          /\ Judge("C07", TailOk, AInfo("large_object_tail"))
+          /\ Judge("C06", TailOk, AInfo("large_object_tail"))
 
 ---------------------------------------------------------------------------
 \* C15: two construction paths
